@@ -49,11 +49,12 @@ class ReplayInvalid(Exception):
 
 
 class Claim:
-    __slots__ = ("name", "status", "model", "detail", "time", "trivial", "compound")
+    __slots__ = ("name", "status", "model", "detail", "time", "trivial", "compound", "alt_model")
 
     def __init__(self, name, status, model=None, detail="", time_=0.0, trivial=False, compound=True):
         self.name, self.status, self.model, self.detail, self.time, self.trivial = name, status, model, detail, time_, trivial
         self.compound = compound  # the implementation-side term is a computed expression (not a bare input/constant)
+        self.alt_model = None
 
 
 def _model_to_json(model):
@@ -82,6 +83,7 @@ class Ctx:
         self.tol = 1e3 * float(np.finfo(real_t).eps)
         self.worst_case: dict = {}
         self.prefer = "smt"  # which z3 engine to try first ("nlsat" for genuinely polynomial identities)
+        self.discard = False  # True while an *earlier* object / call history is being produced (claims are not stated)
 
     # ---- inputs ---------------------------------------------------------------------
     def _num(self, name, default):
@@ -145,7 +147,7 @@ class Ctx:
         if self.sym:
             self.hyps.append(S.lift(cond))
         else:
-            if not bool(cond):
+            if not bool(cond) and not self.discard:
                 raise ReplayInvalid("model violates an assumption numerically")
 
     # ---- claims ---------------------------------------------------------------------
@@ -183,6 +185,8 @@ class Ctx:
     def claim(self, name, cond, robust=None):
         """cond must hold under the assumptions.  robust: optional stronger negation used to get a
         numerically robust counterexample (Sym bool), tried first when the claim is refuted."""
+        if self.discard:
+            return
         if not self.sym:
             if self.target is not None and name != self.target:
                 return
@@ -215,13 +219,43 @@ class Ctx:
                 if r2.status == "sat":
                     model = r2.model
                     break
+        if r.status in ("sat", "unknown") and smt.has_apps(self.hyps + [cond]):
+            # transcendental applications are abstracted in the query: get a point that is a counterexample under the
+            # true functions (float evaluation), have the solver confirm the concretised query, replay decides
+            goals = (robust if isinstance(robust, list) else [robust]) if robust is not None else [S.Not(cond)]
+            w = smt.numeric_witness(self.hyps, goals, model, self.rng)
+            if w is not None:
+                fix = [S._cmp("eq", v, S.const(x)) for v, x in w.items() if isinstance(x, Fraction)]
+                r4 = smt.check_sat(self.hyps + fix + [S.Not(cond)], timeout_ms=5000, tag=name.split("[")[0] + ":witness-confirm")
+                if r4.status == "sat":
+                    model = dict(w)
+                    if r.status == "unknown":
+                        r = r4
         if r.status == "unknown":
             r3 = smt.find_model_by_concretisation(self.hyps, S.Not(cond), self.rng, tag=name.split("[")[0])
             if r3.status == "sat":
                 r, model = r3, r3.model
-        self._record(Claim(name, r.status, _model_to_json(model) if model else None, time_=r.time))
+        alt = None
+        if r.status == "sat" and not getattr(self, "_alt_budget_spent", 0) > 6:
+            # a second, GENERIC counterexample (every variable of the claim non-zero, magnitudes >= 1/8): sparse models can
+            # sit on a measure-zero set where the real build happens to agree (e.g. compiler vectorisation of an aliased loop)
+            fv = [v for v in S.free_vars([cond]) if v.sort == S.REAL and v.args[0] != S.PI_NAME]
+            if 0 < len(fv) <= 400:
+                self._alt_budget_spent = getattr(self, "_alt_budget_spent", 0) + 1
+                gen = [S.And(S.sabs(v) >= Fraction(1, 8), S.sabs(v) <= 40) for v in fv]
+                goals = (robust if isinstance(robust, list) else [robust]) if robust is not None else [S.Not(cond)]
+                for g in goals[:2]:
+                    r5 = smt.check_sat(self.hyps + gen + [g, S.Not(cond)], timeout_ms=5000, tag=name.split("[")[0] + ":generic-model")
+                    if r5.status == "sat":
+                        alt = _model_to_json(r5.model)
+                        break
+        c = Claim(name, r.status, _model_to_json(model) if model else None, time_=r.time)
+        c.alt_model = alt
+        self._record(c)
 
     def eq(self, name, impl, ref):
+        if self.discard:
+            return
         if not self.sym:
             if self.target is not None and name != self.target:
                 return
@@ -239,10 +273,13 @@ class Ctx:
             self._record(Claim(name, "unsat", trivial=True, compound=impl.op not in ("c", "v")))
             return
         d = impl - ref
-        robust = S.And(S.sabs(d) >= Fraction(1, 100), *[S.And(v >= -50, v <= 50) for v in S.free_vars([d]) if v.sort == S.REAL and v.args[0] != S.PI_NAME])
+        box = [S.And(v >= -50, v <= 50) for v in S.free_vars([d]) if v.sort == S.REAL and v.args[0] != S.PI_NAME]
+        robust = [S.And(S.sabs(d) >= m, *box) for m in ((Fraction(1, 100), Fraction(1, 1000)) + ((Fraction(1, 10**6),) if self.real_t == np.float64 else ()))]
         self.claim(name, S._cmp("eq", impl, ref), robust=robust)
 
     def eq_array(self, name, impl, ref, cells=None):
+        if self.discard:
+            return
         impl_a = np.asarray(impl)
         ref_a = np.broadcast_to(np.asarray(ref), impl_a.shape)
         if not self.sym:
@@ -255,6 +292,8 @@ class Ctx:
 
     def le(self, name, a, b):
         """claim a <= b (replay: violated when a exceeds b by more than the relative rounding tolerance)"""
+        if self.discard:
+            return
         if not self.sym:
             if self.target is not None and name != self.target:
                 return
@@ -280,7 +319,8 @@ class Ctx:
         self.eq_array(name, after, before)
 
     def note(self, s):
-        self.notes.append(s)
+        if not self.discard:
+            self.notes.append(s)
 
     # ---- branch pruning under the current assumptions (DESIGN 4.4) -------------------
     def enable_pruning(self):
@@ -364,7 +404,7 @@ class Check:
         real_t = np.float32 if data.get("real_t") == "float32" else np.float64
         ctx = Ctx("num", model=data["model"], target=data["claim"], real_t=real_t)
         try:
-            fn(ctx, **data["params"])
+            call_with_history(fn, ctx, data["params"])
         except ReplayInvalid as e:
             print(f"REPLAY reproduced=False reason=invalid-model {e}")
             sys.exit(3)
@@ -454,6 +494,13 @@ class Check:
                 last = (rec, f, rp, ok, out)
                 if ok is True:
                     break
+                if f.get("alt_model"):
+                    f2 = dict(f, model=f["alt_model"])
+                    rp2 = self._write_replay(rec, f2)
+                    ok2, out2 = self._replay(rp2)
+                    if ok2 is True:
+                        last = (rec, f2, rp2, ok2, out2)
+                        break
             return last
 
         if fams:
@@ -604,6 +651,30 @@ def _match_known(known, rec, f):
     return None
 
 
+def call_with_history(fn, ctx, params):
+    """`_earlier` (a dict of parameter overrides, or a list of them) makes the scenario run first with those
+    parameters IN THE SAME PROCESS - an earlier object / earlier calls whose claims are not stated - and then
+    with the real parameters: the property must hold for the later object whatever was constructed and
+    called before it (module-level, class-level and per-generator state are part of the history)."""
+    params = dict(params)
+    earlier = params.pop("_earlier", None)
+    if earlier:
+        for ov in (earlier if isinstance(earlier, list) else [earlier]):
+            ov = dict(ov)
+            saved_hyps, saved_rt = list(ctx.hyps), ctx.real_t
+            if "_real_t" in ov:
+                ctx.real_t = np_real_t(ov.pop("_real_t"))
+            ctx.discard = True
+            try:
+                fn(ctx, **{**params, **ov})
+            finally:
+                ctx.discard = False
+                ctx.real_t = saved_rt
+                ctx.hyps[:] = saved_hyps
+                ctx.disable_pruning()
+    return fn(ctx, **params)
+
+
 def _run_task(task, seed):
     name, params, real_t = task
     fn = SCENARIOS[name]
@@ -614,7 +685,7 @@ def _run_task(task, seed):
     try:
         # every scenario runs under path exploration: a data-dependent branch of the real code on symbolic data
         # (bool()/int() of a term) forks the scenario instead of aborting it
-        paths = explore(ctx, lambda: fn(ctx, **params), max_paths=getattr(fn, "max_paths", 32), tag="scenario-path")
+        paths = explore(ctx, lambda: call_with_history(fn, ctx, params), max_paths=getattr(fn, "max_paths", 32), tag="scenario-path")
         rec["paths"] = len(paths)
     except Exception as e:
         ctx.disable_pruning()
@@ -623,6 +694,10 @@ def _run_task(task, seed):
         if os.environ.get("VERIF_DEBUG"):
             traceback.print_exc()
     ctx.disable_pruning()
+    if getattr(ctx, "path_bound_reached", None):
+        rec["notes_path_bound"] = ctx.path_bound_reached
+        if not any(c.status != "unsat" for c in ctx.claims) and not rec.get("error"):
+            rec["error"] = "path bound reached without a refutation: " + ctx.path_bound_reached
     rec["n_claims"] = len(ctx.claims)
     rec["n_trivial"] = sum(1 for c in ctx.claims if c.trivial)
     rec["claim_keys"] = [c.name for c in ctx.claims if (not c.trivial) or c.compound]
@@ -635,7 +710,7 @@ def _run_task(task, seed):
             rec["error"] = "assumptions are contradictory (vacuous scenario)"
     for c in ctx.claims:
         if c.status != "unsat":
-            rec["failures"].append({"name": c.name, "status": c.status, "model": c.model})
+            rec["failures"].append({"name": c.name, "status": c.status, "model": c.model, "alt_model": getattr(c, "alt_model", None)})
     nt = [c for c in ctx.claims if not c.trivial]
     if nt:
         c = nt[len(nt) // 2]
@@ -643,6 +718,13 @@ def _run_task(task, seed):
     rec["stats"] = smt.STATS.as_dict()
     rec["wall_s"] = round(time.time() - t0, 2)
     rec["notes"] = ctx.notes
+    try:
+        from symsopht import graph as _graph
+
+        if _graph.UNCLASSIFIED:
+            rec["notes"] = list(rec["notes"]) + [f"arrays not named by the harness policy, kept at their constructed (concrete) content: {sorted(_graph.UNCLASSIFIED)}"]
+    except Exception:
+        pass
     rec["worst_case"] = ctx.worst_case
     return rec
 
@@ -691,7 +773,10 @@ def explore(ctx, fn, max_paths=64, tag="path"):
         prefix = todo.pop()
         n += 1
         if n > max_paths:
-            raise PathLimit(f"more than {max_paths} paths")
+            # bounded exploration: the paths explored so far stand, the rest is outside the bound (reported, and the
+            # instance is inconclusive unless one of the explored paths already refutes a claim)
+            ctx.path_bound_reached = f"more than {max_paths} paths: {len(todo) + 1} pending decision prefixes not explored"
+            break
         state = {"pos": 0, "taken": []}
 
         def feasible(cond):
@@ -726,7 +811,11 @@ def explore(ctx, fn, max_paths=64, tag="path"):
         def decide_int(term):
             # enumerate feasible integer values one at a time: fork on term == v
             while True:
-                r = feasible(S.TRUE)
+                # prefer small magnitudes (an integer that drives a loop count should not be astronomically large)
+                small = S.And(S._cmp("le", S.const(-8), term), S._cmp("le", term, S.const(8)))
+                r = smt.check_sat(ctx.hyps + [small], timeout_ms=5000, tag=tag + ":feasible-small", want_model=True)
+                if r.status != "sat":
+                    r = feasible(S.TRUE)
                 m = r.model
                 env = {v: m.get(v, Fraction(0)) for v in S.free_vars([term])}
                 try:
@@ -750,6 +839,24 @@ def explore(ctx, fn, max_paths=64, tag="path"):
     return results
 
 
+def view_with_identity_of(dead_id, arr, tries=64):
+    """A fresh wrapper object (`arr.view()`) of arr; when CPython hands out the address of a dead object again - which it
+    does as a rule for an object of the same type created right after the other one died - the wrapper has the *identity*
+    (id()) of that dead object although it denotes different memory.  Call histories in which an argument object reuses the
+    identity of an earlier, dead argument are ordinary Python histories; code keyed on id() sees them as 'the same object'.
+    Returns (view, identity_was_reused)."""
+    held = []
+    v = arr.view()
+    n = 0
+    while id(v) != dead_id and n < tries:
+        held.append(v)
+        v = arr.view()
+        n += 1
+    ok = id(v) == dead_id
+    del held
+    return v, ok
+
+
 def bound_vars(ctx, arr, lo=-1, hi=1):
     """assume lo <= v <= hi for every cell (tolerance obligations quantify over a bounded box)"""
     if ctx.sym:
@@ -763,6 +870,8 @@ def bound_vars(ctx, arr, lo=-1, hi=1):
 
 def close(ctx, name, impl, ref, tol):
     """tolerance obligation |impl - ref| <= tol (absolute; inputs bounded by bound_vars)"""
+    if ctx.discard:
+        return
     if not ctx.sym:
         if ctx.target is not None and name != ctx.target:
             return
@@ -797,6 +906,8 @@ def close(ctx, name, impl, ref, tol):
 
 
 def close_array(ctx, name, impl, ref, tol, cells=None):
+    if ctx.discard:
+        return
     impl_a = np.asarray(impl)
     ref_a = np.broadcast_to(np.asarray(ref), impl_a.shape)
     for idx in (cells if cells is not None else np.ndindex(*impl_a.shape)):
@@ -808,7 +919,7 @@ def close_array(ctx, name, impl, ref, tol, cells=None):
 def merge_equal_radicands(ctx, roots):
     """SMT-sweeping style lemma step: sqrt applications whose radicands are proved equal (z3) under the
     assumptions are replaced by one representative.  Candidates are proposed by numeric simulation."""
-    if not ctx.sym:
+    if not ctx.sym or ctx.discard:
         return roots
     roots = [S.lift(r) for r in roots]
     apps = [n for n in S.topo(roots) if n.op == "app" and n.args[0] == "sqrt"]
